@@ -229,6 +229,10 @@ fn raw_transport(cfg: &Value) -> quinn::TransportConfig {
     } else {
         tc.max_idle_timeout(Some(quinn::IdleTimeout::try_from(Duration::from_secs(20)).unwrap()));
     }
+    // flow-control window the raw peer grants per stream (small values force short writes on the other side)
+    if let Some(n) = cfg.get("peer_stream_window").and_then(|v| v.as_u64()) {
+        tc.stream_receive_window(quinn::VarInt::from_u32(n as u32));
+    }
     if let Some(n) = cfg.get("peer_max_uni").and_then(|v| v.as_u64()) {
         tc.max_concurrent_uni_streams(quinn::VarInt::from_u32(n as u32));
     }
@@ -2163,6 +2167,26 @@ pub async fn measure_reload() -> Vec<(String, Value)> {
         alive = matches!(timeout(Duration::from_secs(3), s1.accept_uni()).await, Ok(Ok(_)));
     }
     out.push(("old_alive".into(), json!(alive)));
+    // a reload that fails (rebinding to an address that is taken) reports the failure and changes nothing:
+    // new connections still get the configuration in force before it
+    let id_c = Identity::self_signed(["localhost", "third.example"]).expect("id");
+    let blocker = std::net::UdpSocket::bind("127.0.0.1:0").expect("blocker");
+    let taken = blocker.local_addr().unwrap();
+    let cfg_c = ServerConfig::builder().with_bind_address(taken).with_identity(id_c).build();
+    let failed = ep.reload_config(cfg_c, true).is_err();
+    out.push(("rebind_taken_fails".into(), json!(failed)));
+    match raw_session(addr, &cep).await {
+        Some((c3, _k3, _r3)) => {
+            let _s3 = rx.recv().await;
+            out.push(("after_failed_connected".into(), json!(true)));
+            out.push(("after_failed_sees_b".into(), json!(peer_cert_hash(&c3) == hash_b.as_ref().to_vec())));
+        }
+        None => {
+            out.push(("after_failed_connected".into(), json!(false)));
+            out.push(("after_failed_sees_b".into(), json!(false)));
+        }
+    }
+    drop(blocker);
     acc.abort();
     out
 }
